@@ -73,8 +73,10 @@ def gen_plan(rng, tier, config, opts):
                 t = rng.choice(sorted(HI_TOWERS))
             fmt = rng.below(2) if t in PACKABLE else 0
             g = rng.choice(GENS[t])
-            if t in ('fp2', 'fp12') and fmt == 1:
-                g = 'cyc'           # only norm-one / cyclotomic elements have a packed form
+            if t in ('fp2', 'fp12') and fmt == 1 and not (pc and rng.chance(0.25)):
+                # only norm-one / cyclotomic elements have a packed form; for any other element (a quarter of the packed
+                # requests) the writer falls back to the plain form, whose length the size function advertises
+                g = 'cyc'
                 if t == 'fp2' and rng.chance(0.2):
                     g = 'one'       # ... of which 1 is the one whose second coordinate is zero (its sign bit has one valid value)
                 if not pc and t == 'fp12':
@@ -100,7 +102,7 @@ def gen_plan(rng, tier, config, opts):
             t = rng.choice(types)
             if t == 'HI':
                 t = rng.choice(sorted(HI_TOWERS))
-            fmt = rng.below(2) if t in PACKABLE and t not in ('fp2', 'fp8', 'fp12') else 0
+            fmt = rng.below(2) if t in PACKABLE and t != 'fp8' and (pc or t not in ('fp2', 'fp12')) else 0
             delta = rng.choice([-1, -1, -1, 0, 0, 1, 1, -2, 7, -100000]) if faulty else rng.choice([0, 0, 1])
             lines.append('CAPW %s %d %s %d' % (t, fmt, rng.choice(GENS[t]), delta))
         elif r < 86:
@@ -137,7 +139,7 @@ def gen_plan(rng, tier, config, opts):
 def _fault(rng, s, t, slot_types):
     k = rng.weighted([('flip', 24), ('set', 8), ('tag', 8), ('last', 6), ('trunc', 9), ('cut', 4), ('extend', 6),
                       ('prefix', 5), ('zero', 3), ('ff', 2), ('splice', 5), ('replace', 3), ('setp', 9), ('inc', 9),
-                      ('winff', 3), ('negc', 8)])
+                      ('winff', 3), ('negc', 8), ('addp', 8)])
     a, b, src = rng.below(100000), rng.below(256), rng.below(8)
     if k == 'tag':
         a = rng.choice([0, 1, 2, 3, 4, 5, 6, 7, 0x80, 0xff]) if rng.chance(0.7) else rng.below(256)
@@ -149,7 +151,7 @@ def _fault(rng, s, t, slot_types):
     if k == 'inc':
         a = rng.below(12)
         b = rng.choice([1, 1, 2, 255])
-    if k in ('winff', 'negc'):
+    if k in ('winff', 'negc', 'addp'):
         a = rng.below(12)
     if k == 'prefix':
         b = rng.choice([0, 0, 0, 1, 0xff])
